@@ -14,7 +14,7 @@ open UtpVerif.Gen
 structure Key where
   addr : Nat
   id : Nat
-deriving Repr, DecidableEq, BEq
+deriving Repr, DecidableEq
 
 structure Syn where
   remote : Nat
@@ -43,11 +43,11 @@ deriving Repr, DecidableEq
 /-- Observable effects of one dispatcher step. -/
 inductive Eff where
   | sent (to : Nat) (bytes : List Nat)
-  | connectOk (token : Nat) (k : Key)            -- stream created for an outgoing connect
+  | connectOk (token : Nat) (k : Key) (inst : Nat)   -- stream created for an outgoing connect
   | connectErr (token : Nat) (e : ConnErr)
-  | accepted (acc : Nat) (k : Key) (remote : Nat)  -- stream created for an accept call
+  | accepted (acc : Nat) (k : Key) (remote : Nat) (inst : Nat)  -- stream created for an accept call
   | delivered (k : Key) (h : Header)               -- datagram handed to the stream registered under `k`
-deriving Repr
+deriving Repr, DecidableEq
 
 inductive SendMode where
   | ok | fail | short
@@ -55,8 +55,9 @@ deriving Repr, DecidableEq
 
 structure Disp where
   maxActive : Nat
-  streams : List Key := []                       -- keys of the demultiplexing table (a map: no duplicates)
-  deadStreams : List Key := []                   -- streams whose task is gone but whose key is still in the table
+  streams : List (Key × Nat) := []               -- the demultiplexing table: key ↦ stream instance (a map: no duplicate keys)
+  deadStreams : List Nat := []                   -- instances whose task (channel receiver) is gone
+  nextInst : Nat := 0
   connecting : List (Nat × List (Option Connecting)) := []   -- addr ↦ MAX_CONNECTING_PER_ADDR slots
   syns : List Syn := []
   nextAcceptor : Option Acceptor := none
@@ -79,14 +80,18 @@ def random (d : Disp) : Nat × Disp :=
 
 def streamsFull (d : Disp) : Bool := d.streams.length ≥ d.maxActive
 
-def hasKey (d : Disp) (k : Key) : Bool := d.streams.contains k
+def keys (d : Disp) : List Key := d.streams.map (·.1)
+
+def hasKey (d : Disp) (k : Key) : Bool := d.keys.contains k
+
+def instOf (d : Disp) (k : Key) : Option Nat := (d.streams.find? (·.1 == k)).map (·.2)
 
 def removeKey (d : Disp) (k : Key) : Disp :=
-  { d with streams := d.streams.filter (· != k), deadStreams := d.deadStreams.filter (· != k) }
+  { d with streams := d.streams.filter (·.1 != k) }
 
-/-- `HashMap::insert` (replaces an existing entry). -/
-def insertKey (d : Disp) (k : Key) : Disp :=
-  { d with streams := d.streams.filter (· != k) ++ [k], deadStreams := d.deadStreams.filter (· != k) }
+/-- `HashMap::insert` of a fresh stream instance (replaces an existing entry). -/
+def insertKey (d : Disp) (k : Key) : Disp × Nat :=
+  ({ d with streams := d.streams.filter (·.1 != k) ++ [(k, d.nextInst)], nextInst := d.nextInst + 1 }, d.nextInst)
 
 def tryNextAcceptor (d : Disp) : Option Acceptor × Disp :=
   match d.nextAcceptor with
@@ -110,7 +115,7 @@ def matchSynWithAccept (d : Disp) (s : Syn) (a : Acceptor) : MatchRes × Disp ×
   if d.hasKey k then (.synInvalid a, d, []) else
   let (_seq, d) := d.random
   if d.deadAcc.contains a.id then (.receiverDead s, d, [])      -- inserted, send failed, removed again
-  else (.matched, d.insertKey k, [.accepted a.id k s.remote])
+  else let (d', inst) := d.insertKey k; (.matched, d', [.accepted a.id k s.remote inst])
 
 /-- `cleanup_accept_queue` -/
 def cleanupLoop : Nat → Disp → List Eff → Disp × List Eff
@@ -217,7 +222,7 @@ def onMaybeConnectAck (d : Disp) (addr : Nat) (h : Header) : Disp × List Eff :=
       let d := d.setSlots addr (if slotsEmpty slots' then none else some slots')
       let k : Key := { addr := addr, id := h.connId }
       if d.deadReq.contains c.token then (d.removeKey k, [])     -- inserted, hand-over failed, removed
-      else (d.insertKey k, [.connectOk c.token k])
+      else let (d', inst) := d.insertKey k; (d', [.connectOk c.token k inst])
 
 /-- the `while let Some(acceptor)` loop of `on_syn`; returns the SYN if it is still unmatched -/
 def onSynLoop : Nat → Disp → Syn → List Eff → Disp × Option Syn × List Eff
@@ -232,22 +237,23 @@ def onSynLoop : Nat → Disp → Syn → List Eff → Disp × Option Syn × List
       | (.receiverDead s', d2, e) => onSynLoop fuel d2 s' (effs ++ e)
       | (.full s' a', d2, e) => ({ d2 with nextAcceptor := some a' }, some s', effs ++ e)
 
-/-- `on_syn` -/
+/-- `on_syn`: a SYN is matched directly only when no earlier SYN is cached (arrival order) -/
 def onSyn (d : Disp) (remote : Nat) (h : Header) : Disp × List Eff :=
-  match onSynLoop (d.acceptorsWaiting + 1) d { remote := remote, h := h } [] with
+  match (if d.syns.isEmpty then onSynLoop (d.acceptorsWaiting + 1) d { remote := remote, h := h } []
+         else (d, some { remote := remote, h := h }, [])) with
   | (d, none, effs) => (d, effs)
   | (d, some s, effs) =>
     if d.syns.length < ACCEPT_QUEUE_MAX_SYNS then ({ d with syns := d.syns ++ [s] }, effs)
     else
       match d.sendMode with
-      | .fail => (d, effs)
-      | _ => (d, effs ++ [.sent s.remote (if d.sendMode = .short then (ser (rstHeader s)).dropLast else ser (rstHeader s))])
+      | .ok => (d, effs ++ [.sent s.remote (ser (rstHeader s))])
+      | _ => (d, effs)          -- the RESET is best effort: send errors and short sends are ignored
 
 /-- `on_recv` for a datagram that parsed -/
 def onRecv (d : Disp) (addr : Nat) (h : Header) : Disp × List Eff :=
   let k : Key := { addr := addr, id := h.connId }
   if d.hasKey k then
-    if d.deadStreams.contains k then (d.removeKey k, []) else (d, [.delivered k h])
+    if (d.instOf k).any d.deadStreams.contains then (d.removeKey k, []) else (d, [.delivered k h])
   else if h.htype = TYPE_ST_STATE then d.onMaybeConnectAck addr h
   else if h.htype = TYPE_ST_SYN then d.onSyn addr h
   else (d, [])
@@ -260,20 +266,25 @@ inductive Event where
   | datagram (addr : Nat) (bytes : List Nat)
 deriving Repr
 
+/-- what `run_once` does with the event `select!` picked -/
+def handle (d : Disp) (ev : Event) : Disp × List Eff :=
+  match ev with
+  | .idle => (d, [])
+  | .acceptor =>
+    match d.nextAcceptor, d.accChan with
+    | none, a :: rest => ({ d with nextAcceptor := some a, accChan := rest }, [])
+    | _, _ => (d, [])
+  | .control c => d.onControl c
+  | .datagram addr bytes =>
+    match Message.deserialize bytes with
+    | none => (d, [])
+    | some (h, _) => d.onRecv addr h
+
 /-- `run_once` -/
 def runOnce (d : Disp) (ev : Event) : Disp × List Eff :=
   let (d, e0) := d.cleanupAcceptQueue
-  match ev with
-  | .idle => (d, e0)
-  | .acceptor =>
-    match d.nextAcceptor, d.accChan with
-    | none, a :: rest => ({ d with nextAcceptor := some a, accChan := rest }, e0)
-    | _, _ => (d, e0)
-  | .control c => let (d, e) := d.onControl c; (d, e0 ++ e)
-  | .datagram addr bytes =>
-    match Message.deserialize bytes with
-    | none => (d, e0)
-    | some (h, _) => let (d, e) := d.onRecv addr h; (d, e0 ++ e)
+  let (d, e) := d.handle ev
+  (d, e0 ++ e)
 
 end Disp
 end UtpVerif.Model
